@@ -50,7 +50,8 @@ def impl(case):
             out[name] = f()
         except Exception as e:  # noqa
             out[name] = "!" + type(e).__name__
-    safe("commutants", lambda: [str(s) for s in c.get_commutants()])
+    if not case.get("light"):
+        safe("commutants", lambda: [str(s) for s in c.get_commutants()])
     safe("agraph", lambda: (lambda v, e, l: {"v": list(v), "e": [[a, b, l.get((a, b))] for a, b in e]})(*c.get_graph()))
     safe("subgraphs", lambda: sorted(sorted(str(s) for s in sub) for sub in c.get_subgraphs()))
     safe("pair", lambda: c.get_pair())
@@ -132,6 +133,36 @@ def main():
             nt.add((n, tuple(p)))
         if bad:
             ck.fail(None, "n=%d G=%s: %s" % (n, g, "; ".join(bad)[:600]), {"n": n, "gens": g, "differences": bad})
+    # long strings (6..70 qubits, past every machine-word boundary of the bit-level representation): only the queries that
+    # do not enumerate 4^n strings (anticommutation graph, its components, pair counts, fraction)
+    big = [(n, g) for _, n, g in G.collections(ck.rng, 40 if ck.quick else 400, 6, 16)]
+    for _ in range(40 if ck.quick else 400):
+        n = ck.rng.choice([17, 31, 32, 33, 40, 63, 64, 65, 70])
+        big.append((n, [G.uniform(ck.rng, n) if ck.rng.random() < 0.5 else "".join(ck.rng.choice("IIIIIIXYZ") for _ in range(n)) for _ in range(ck.rng.randint(2, 7))]))
+    bres = ck.impl("c14", [{"gens": g, "light": True, "n": n} for n, g in big], per_case_s=120)
+    breq = []
+    for n, g in big:
+        gs = " ".join(g)
+        breq += ["agraph " + gs, "acomps " + gs]
+    bans = ck.oracle(breq, procs=8)
+    for i, ((n, g), r) in enumerate(zip(big, bres)):
+        ag, ac = bans[2 * i:2 * i + 2]
+        if "exc" in r:
+            ck.fail(None, "graph queries raised %s on %s" % (r["exc"], g), {"n": n, "gens": g, "result": r}); continue
+        p = list(g)
+        bad = []
+        want_edges = [e.split(":") for e in ag.split()]
+        if not isinstance(r["agraph"], dict) or r["agraph"]["v"] != r["strings"] or sorted(map(tuple, r["agraph"]["e"])) != sorted(map(tuple, want_edges)):
+            bad.append("anticommutation graph: implementation %s edges, model %s" % (len(r["agraph"]["e"]) if isinstance(r["agraph"], dict) else r["agraph"], len(want_edges)))
+        want_sub = sorted(sorted(c.split()) for c in ac.split(";") if c)
+        if r["subgraphs"] != want_sub:
+            bad.append("components: implementation %s, model %s" % (r["subgraphs"], want_sub))
+        m = len(r["strings"])
+        if r["pair"] != m * (m - 1) // 2 or r["apair"] != len(want_edges):
+            bad.append("pair counts: %s / %s, expected %d / %d" % (r["pair"], r["apair"], m * (m - 1) // 2, len(want_edges)))
+        if bad:
+            ck.fail(None, "n=%d G=%s: %s" % (n, g, "; ".join(bad)[:600]), {"n": n, "gens": g, "differences": bad, "light": True})
+    stats["long_string_cases"] = len(big)
     # the same collection object queried, edited in place and queried again
     hist = []
     for _ in range(120 if ck.quick else 1200):
